@@ -323,15 +323,18 @@ def scale_case(rng, kind, algo=None):
             prio = prio_main if rng.random() < 0.85 else rng.choice(PRIOS_L)
             nops = rng.choice([1, 1, 2])
             # long-tailed run times, so that order statistics depend on which samples are kept
-            ops = [_tiny_op(tps, rng.choice([1, 1, 1, 2, 2, 3, 5, 8, 13, 21, 34, 55]) if rng.random() < 0.25 else rng.choice([1, 2]),
-                            parents=([k - 1] if k else [])) for k in range(nops)]
+            # (a sparse tail: the top percent of the run times are all different values, no plateau at the 99th percentile)
+            def _len():
+                r = rng.random()
+                return rng.randint(40, 300) if r < 0.012 else (rng.randint(1, 40) if r < 0.09 else rng.choice([1, 2]))
+            ops = [_tiny_op(tps, _len(), parents=([k - 1] if k else [])) for k in range(nops)]
             if rng.random() < 0.03:
                 ops[-1]["segs"][0]["mem"] = 1000.0        # an occasional OOM
             arrivals.setdefault(str(t), []).append({"pid": f"s{i}", "prio": prio, "ops": ops})
             if rng.random() < 0.5:
                 t += 1
         pools = 2 if algo == "priority-pool" else 1
-        params = {"duration": (t + 400) / tps, "ticks_per_second": tps, "num_pools": pools, "cpus_per_pool": 20, "ram_gb_per_pool": 40,
+        params = {"duration": (t + 600) / tps, "ticks_per_second": tps, "num_pools": pools, "cpus_per_pool": 40, "ram_gb_per_pool": 80,
                   "multi_operator_containers": rng.random() < 0.5 or algo == "priority-pool",
                   "allow_memory_overcommit": algo == "overbook"}
         if algo == "vrandom":
